@@ -256,7 +256,8 @@ func createURL(r *http.Request, aInfo assetsInfo, drmCfg *drm.DrmConfig) urlGenD
 	if tsbd != "" {
 		t, err := strconv.Atoi(tsbd)
 		if err != nil {
-			panic("bad tsbd")
+			data.Errors = append(data.Errors, fmt.Sprintf("bad tsbd: %s", tsbd))
+			t = defaultTimeShiftBufferDepthS
 		}
 		if t != defaultTimeShiftBufferDepthS {
 			data.Tsbd = t
@@ -306,7 +307,8 @@ func createURL(r *http.Request, aInfo assetsInfo, drmCfg *drm.DrmConfig) urlGenD
 	if llTarget := q.Get("ltgt"); llTarget != "" {
 		lt, err := strconv.Atoi(llTarget)
 		if err != nil {
-			panic("bad ltgt")
+			data.Errors = append(data.Errors, fmt.Sprintf("bad ltgt: %s", llTarget))
+			lt = defaultLatencyTargetMS
 		}
 		if lt != defaultLatencyTargetMS {
 			data.LlTarget = lt
@@ -316,7 +318,8 @@ func createURL(r *http.Request, aInfo assetsInfo, drmCfg *drm.DrmConfig) urlGenD
 	if ptl := q.Get("patch-ttl"); ptl != "" {
 		patchTTL, err := strconv.Atoi(ptl)
 		if err != nil {
-			panic("bad patch-ttl")
+			data.Errors = append(data.Errors, fmt.Sprintf("bad patch-ttl: %s", ptl))
+			patchTTL = 0
 		}
 		if patchTTL > 0 {
 			data.PatchTTL = ptl
